@@ -437,6 +437,11 @@ func (handle *writeTxnHandle) Commit() ReadTxn {
 		table.meta.released()
 		table.locked = false
 	}
+	// Carry over the tables that were registered after this transaction
+	// was created.
+	if len(currentRoot) > len(root) {
+		root = append(root, currentRoot[len(root):]...)
+	}
 	txn.tableEntries = nil
 
 	// Commit the transaction to build the new root tree and then
